@@ -49,6 +49,10 @@ checks = {
    technique="exhaustive enumeration of handler programs (<=3 / <=5 operations over 13 response operations; <=2 / <=3 over 6 request-side operations) x request bodies around the limits x rule placement/action x body-access / MIME / limit-action settings, served in-process through the real middleware on httptest.ResponseRecorder and on a strict net/http-conformant writer; blocking oracle absolute, pass-through oracle differential against the same program without the middleware",
    text="For every generated handler, body and configuration: interrupted in a request phase => handler not entered, interruption's status, no body; interrupted in a response phase => no handler body byte reaches the client; otherwise the handler reads exactly the client's body and the client receives exactly the handler's status, headers and body.",
    note="Trusted: the strict writer's model of net/http's header-snapshot rules. Not covered: HTTP/2, hijacked connections, trailers, HEAD, real sockets and timing. One open known finding (headers changed after WriteHeader reach the client)."),
+ "C15": dict(level="exploration", design="§3 C15", engine="enumeration",
+   technique="exhaustive enumeration of (operator, argument, input) triples over tiny adversarial alphabets for every covered built-in operator, evaluated through the real operator factory on a real transaction (and a subset through real rules for negation and TX.0-9), against direct executable definitions (naive substring search with ASCII folding, strconv, net/netip, byte tables, RFC 3629 table, Go regexp)",
+   text="For the string, numeric, @pm family, @ipMatch, @validateByteRange, @validateUrlEncoding, @validateUtf8Encoding and @rx operators every argument and input up to the stated lengths is decided and compared with the documented predicate; `!` must be the exact complement; capturing operators must store the matched texts in TX.0-9.",
+   note="Trusted: the executable definitions in go/c15 and the Go standard library. Not covered: @detectSQLi/@detectXSS/@rbl/@geoLookup/@inspectFile/@restpath/@validateNid/@validateSchema; readings the documentation leaves open are executed but not asserted (skipped_unspecified). One open known finding in the rsc.io/binaryregexp dependency (captures only)."),
 }
 not_applicable = {}
 
